@@ -587,7 +587,13 @@ def load(
                 p = -p
             r = bdd.find_or_add(i, p, q)
             umap[abs(u)] = r
-    bdd.roots.update(roots)
+    # the file's root ids refer to the file's nodes,
+    # map them to the nodes of `bdd`
+    for u in roots:
+        r = umap[abs(u)]
+        if u < 0:
+            r = -r
+        bdd.roots.add(r)
     return bdd
 
 
